@@ -176,9 +176,16 @@ class RemoveImportsTransformer(CSTTransformer):
         names_to_keep = []
         for name in updated_node.names:
             module_name = name.evaluated_name
+            alias = name.evaluated_alias
             found = False
             for import_item in self.import_items_to_be_removed:
-                if import_item.module_name == module_name:
+                # only `import module_name [as alias]` itself, not an import
+                # of something else from the same module
+                if (
+                    import_item.module_name == module_name
+                    and not import_item.obj_name
+                    and import_item.alias == alias
+                ):
                     found = True
                     break
             if not found:
@@ -201,11 +208,13 @@ class RemoveImportsTransformer(CSTTransformer):
         module_name = get_absolute_module_from_package_for_import(None, updated_node)
         for name in updated_node.names:
             name_value = name.name.value
+            alias = name.evaluated_alias
             found = False
             for import_item in self.import_items_to_be_removed:
                 if (
                     import_item.module_name == module_name
                     and import_item.obj_name == name_value
+                    and import_item.alias == alias
                 ):
                     found = True
                     break
